@@ -15,6 +15,7 @@ import (
 	"sort"
 	"strings"
 	"sync"
+	"syscall"
 	"time"
 
 	"github.com/wizenheimer/comet/internal/vrt"
@@ -557,8 +558,12 @@ func init() {
 		runtime.GOMAXPROCS(8)
 		seen := map[string]bool{}
 		n := 0
+		var only *regexp.Regexp
+		if len(args) > 1 {
+			only = regexp.MustCompile(args[1])
+		}
 		for _, sc := range vScenarios {
-			if seen[sc.Name] {
+			if seen[sc.Name] || (only != nil && !only.MatchString(sc.Name)) {
 				continue
 			}
 			seen[sc.Name] = true
@@ -609,13 +614,25 @@ func vRaceShard(tier string) vShard {
 		sc.Buffer(make([]byte, 1<<20), 1<<20)
 		scenario := ""
 		inRace := false
-		// watchdog: a free-running body that makes no progress for 30 s is hung (a real
-		// deadlock or livelock in the code under test): kill the pass and report it
+		// watchdog: a free-running body that makes no progress is hung (a real deadlock or
+		// livelock in the code under test). Wall-clock silence alone is no evidence - on a
+		// loaded machine the process may simply not be scheduled - so the verdict is taken
+		// from the process itself: a DEADLOCK is 30 consecutive one-second samples without
+		// progress in which no thread of the process was runnable (state R/D in
+		// /proc/<pid>/task/*/stat) in at least 27 of them; a LIVELOCK is no progress while the
+		// process burnt 60 s of CPU time (hundreds of times what one iteration needs). A starved process (threads runnable, no CPU
+		// granted) is neither, and the pass just keeps waiting until the budget ends.
 		var wmu sync.Mutex
 		lastProgress := time.Now()
 		hungAt := ""
+		hungWhy := ""
+		dumping := false
+		var dump []string
 		stopWatch := make(chan struct{})
 		go func() {
+			asleep, samples := 0, 0
+			var cpuAtProgress float64 = -1
+			var seenProgress time.Time
 			for {
 				select {
 				case <-stopWatch:
@@ -623,15 +640,35 @@ func vRaceShard(tier string) vShard {
 				case <-time.After(time.Second):
 				}
 				wmu.Lock()
-				idle := time.Since(lastProgress)
+				lp := lastProgress
 				cur := scenario
 				wmu.Unlock()
-				if idle > 30*time.Second || c.Expired() {
+				if c.Expired() {
+					cmd.Process.Kill()
+					return
+				}
+				runnable, cpu := vProcActivity(cmd.Process.Pid)
+				if lp != seenProgress {
+					seenProgress, asleep, samples, cpuAtProgress = lp, 0, 0, cpu
+					continue
+				}
+				samples++
+				if !runnable {
+					asleep++
+				}
+				why := ""
+				switch {
+				case samples >= 30 && asleep*10 >= samples*9:
+					why = fmt.Sprintf("deadlock: no progress during %d one-second samples, no runnable thread in %d of them", samples, asleep)
+				case cpuAtProgress >= 0 && cpu-cpuAtProgress > 60:
+					why = fmt.Sprintf("livelock: no progress while the process used %.0f s of CPU time", cpu-cpuAtProgress)
+				}
+				if why != "" {
 					wmu.Lock()
-					if idle > 30*time.Second {
-						hungAt = cur
-					}
+					hungAt, hungWhy, dumping = cur, why, true
 					wmu.Unlock()
+					cmd.Process.Signal(syscall.SIGQUIT) // goroutine dump on stderr, then exit
+					time.Sleep(5 * time.Second)
 					cmd.Process.Kill()
 					return
 				}
@@ -720,6 +757,11 @@ func vRaceShard(tier string) vShard {
 				if inRace {
 					block = append(block, line)
 				}
+				wmu.Lock()
+				if dumping && len(dump) < 400 {
+					dump = append(dump, line)
+				}
+				wmu.Unlock()
 			}
 		}
 		flush()
@@ -727,10 +769,46 @@ func vRaceShard(tier string) vShard {
 		cmd.Wait()
 		wmu.Lock()
 		if hungAt != "" {
-			c.Violation("free-running-hang", "no progress for 30s", "racepass "+hungAt, []string{hungAt}, "the free-running execution of this scenario made no progress for 30 s (deadlock or livelock); the pass was killed")
+			c.Violation("free-running-hang", strings.SplitN(hungWhy, ":", 2)[0], "racepass "+hungAt, []string{hungAt}, "the free-running execution of this scenario hung ("+hungWhy+"); the pass was killed. Goroutines:\n"+strings.Join(dump, "\n"))
 		}
 		wmu.Unlock()
 		c.Evaluations += int64(len(vScenarios))
 		c.Bound = "free-running race-detector pass (sampling; cross-check, not enumeration)"
 	}}
+}
+
+// vProcActivity: is any thread of the process runnable (or in uninterruptible I/O) right now,
+// and how much CPU time (seconds, user+system) has the process used so far.
+func vProcActivity(pid int) (runnable bool, cpu float64) {
+	field := func(stat string, n int) string { // n counts from 1; the comm field may hold spaces
+		i := strings.LastIndexByte(stat, ')')
+		if i < 0 {
+			return ""
+		}
+		f := strings.Fields(stat[i+1:])
+		if n-3 < 0 || n-3 >= len(f) {
+			return ""
+		}
+		return f[n-3]
+	}
+	if b, err := os.ReadFile(fmt.Sprintf("/proc/%d/stat", pid)); err == nil {
+		var ut, st float64
+		fmt.Sscan(field(string(b), 14), &ut)
+		fmt.Sscan(field(string(b), 15), &st)
+		cpu = (ut + st) / 100
+	}
+	tasks, err := os.ReadDir(fmt.Sprintf("/proc/%d/task", pid))
+	if err != nil {
+		return true, cpu // cannot tell: never call it asleep
+	}
+	for _, t := range tasks {
+		b, err := os.ReadFile(fmt.Sprintf("/proc/%d/task/%s/stat", pid, t.Name()))
+		if err != nil {
+			continue
+		}
+		if st := field(string(b), 3); st == "R" || st == "D" {
+			return true, cpu
+		}
+	}
+	return false, cpu
 }
